@@ -1,5 +1,6 @@
 (** Fuel of the nested merge / copy.  The Rust recursion of [merge_interface] / [remap_interface] over nested instance exports
-    is modelled on explicit fuel.  This file bounds the fuel THAT recursion needs by the depth [d] of the contributor's tree:
+    is modelled on explicit fuel.  This file bounds the fuel THAT recursion needs by the depth [d] of the contributor's
+    requirement ([SDen]: interfaces may be shared between several places):
 
       with fuel  >= 2*d + L + 2  [merge_interface] (and with fuel >= 2*d + L [remap_item_kind]) of a nested requirement
       of depth [d] - whatever the state of the aggregator - can only answer "out of fuel" if
@@ -85,12 +86,12 @@ Section NFuel.
   Qed.
 
   (** * Copy *)
-  Definition RB (d : nat) : Prop := forall k tr ids, Den d t k tr ids -> forall F, (2 * d + L <= F)%nat ->
+  Definition RB (d : nat) : Prop := forall k tr ids, SDen d t k tr ids -> forall F, (2 * d + L <= F)%nat ->
     okm (remap_item_kind ord cf F t k).
-  Definition RIB (d : nat) : Prop := forall i e ids, IDen d t i None e ids -> forall F, (2 * d + L + 1 <= F)%nat ->
+  Definition RIB (d : nat) : Prop := forall i e ids, SIDen d t i None e ids -> forall F, (2 * d + L + 1 <= F)%nat ->
     okm (remap_interface ord cf F t i).
 
-  Lemma kids_den_in d own exs e n k : kids (Den d t) own exs e -> In (n, k) exs -> exists tr, Den d t k tr (own n).
+  Lemma kids_den_in d own exs e n k : kids (SDen d t) own exs e -> In (n, k) exs -> exists tr, SDen d t k tr (own n).
   Proof.
     induction 1 as [|[n1 k1] [n2 tr] exs e [E Hk] _ IH]; [intros []|]. cbn [fst snd] in *. intros [X|X].
     - injection X as -> ->. eauto.
@@ -101,20 +102,18 @@ Section NFuel.
   Proof.
     intros HK i e ids [exs [own [Hg [ND [K [Sh ->]]]]]] F HF. destruct F as [|f]; [lia|]. cbn [remap_interface].
     apply okm_bind_idxM. intros x Hx. rewrite Hg in Hx. injection Hx as <-. cbn [i_id i_uses i_exports].
-    apply okm_bind_ret.
-    apply okm_bind; [apply okm_remapped_get|]. intros r. destruct r as [[| | |y| |]|]; try apply okm_panic; [apply okm_ret|].
+    apply okm_bind_ret. apply okm_bind_ret.
     cbn [mapM]. apply okm_bind_ret.
     apply okm_bind.
     - apply okm_mapM. intros [n k] Hin. cbn [fst snd]. apply okm_bind; [|intros k'; apply okm_ret].
       destruct (kids_den_in _ _ _ _ _ _ K Hin) as [tr Hd]. apply (HK k tr _ Hd). lia.
-    - intros es. apply okm_bind; [apply okm_add_if|]. intros y. apply okm_bind; [apply okm_remapped_new|]. intros _.
-      apply okm_bind_ret. apply okm_ret.
+    - intros es. apply okm_bind; [apply okm_add_if|]. intros y. apply okm_bind_ret. apply okm_ret.
   Qed.
 
   Lemma RB_0 : RB 0. Proof. intros k tr ids []. Qed.
   Lemma RB_S d : RIB d -> RB (S d).
   Proof.
-    intros HI k tr ids HD F HF. cbn [Den] in HD. destruct HD as [[LD ->]|[y0 [e [-> [-> HD]]]]].
+    intros HI k tr ids HD F HF. cbn [DenG] in HD. destruct HD as [[LD ->]|[y0 [e [-> [-> HD]]]]].
     - intros c E. apply HLeaf. exists F, k, tr, c. split; [lia|auto].
     - destruct F as [|f]; [lia|]. cbn [remap_item_kind]. apply okm_bind; [|intros y; apply okm_ret].
       apply (HI y0 e ids HD). lia.
@@ -125,7 +124,7 @@ Section NFuel.
   Proof. intros d. apply RIB_of_RB, RB_all. Qed.
 
   (** * Merge *)
-  Definition MB (d : nat) : Prop := forall i oid e ids, IDen d t i oid e ids -> forall F y, (2 * d + L + 2 <= F)%nat ->
+  Definition MB (d : nat) : Prop := forall i oid e ids, SIDen d t i oid e ids -> forall F y, (2 * d + L + 2 <= F)%nat ->
     okm (merge_interface ord cf F y t i).
 
   Lemma nested_pair_some tk sk y target source : nested_pair tk sk y = Some (target, source) -> sk = KInstance source.
@@ -161,7 +160,7 @@ End NFuel.
 
 (** the bound, spelled out *)
 Theorem nested_merge_fuel_bound ord cf t L d i oid e ids :
-  IDen d t i oid e ids -> forall F y c, (2 * d + L + 2 <= F)%nat ->
+  SIDen d t i oid e ids -> forall F y c, (2 * d + L + 2 <= F)%nat ->
   merge_interface ord cf F y t i c = AOof -> LeafOof ord cf t L \/ ChkOof cf t.
 Proof.
   intros ID F y c HF H.
@@ -169,6 +168,6 @@ Proof.
 Qed.
 (** a copy does not consult the checker *)
 Theorem nested_copy_fuel_bound ord cf t L d k tr ids :
-  Den d t k tr ids -> forall F c, (2 * d + L <= F)%nat ->
+  SDen d t k tr ids -> forall F c, (2 * d + L <= F)%nat ->
   remap_item_kind ord cf F t k c = AOof -> LeafOof ord cf t L.
 Proof. intros HD F c HF H. exact (RB_all ord cf t L (LeafOof ord cf t L) (fun X => X) d k tr ids HD F HF c H). Qed.
